@@ -30,6 +30,7 @@ struct IPt {
 struct CCell {
     std::vector<std::string> polys, paths, labels, refs, props;
     int close_path_vertices = 0;  // consecutive, distinct path vertices at most one grid step apart (raw lists)
+    std::map<std::string, std::vector<IPt>> poly_pts;  // polygon line -> its (normalised) vertices
     // polygons excluded from `polys` because they are compared as regions: tag -> polygons
     std::map<uint64_t, std::vector<std::vector<IPt>>> region;
 };
